@@ -43,6 +43,18 @@ CHECKS = {
              "edges over 2(+1 unseen) labels, values {-1,0,2}; Skipgram kernels flat/harmonic (kernel_args are unusable in "
              "the class). Named preconditions: a non-empty kept vocabulary / at least one n-gram.",
         tech="functional TLA+ specifications + TLC enumeration of (X, X', cfg) replayed into the code"),
+    "C19": dict(
+        cat="model_checking", ref="5 (C19), 4.15",
+        text="SlidingWindow.tla states the documented meaning (padding, number of windows, window i = elements "
+             "[i*stride, i*stride+width), the four window_sample forms, kernels id/average/differences/weight as integer "
+             "matrices) on sequences whose element p is (d+1)*3^p, so every output identifies the positions it was built "
+             "from; TLC checks InRange / LastFits / the SequentialDifference lemma on the whole enumerated space "
+             "(~33k instances) and a seeded sample (each fit compiles a fresh kernel, ~1-2 s) is replayed through "
+             "SlidingWindowTransformer and SequentialDifferenceTransformer with exact comparison.",
+        note="L<=7 (9 thorough), width<=5, stride<=3, pad<=2, 1-d and 2-column inputs; position_velocity, gaussian and "
+             "function kernels are not given an exact oracle; index lists must name distinct positions and a 2-element "
+             "list/tuple is a (start, stride) pair as documented.",
+        tech="functional TLA+ specification on position-coded integer sequences + TLC evaluation replayed into the code"),
     "C04": dict(
         cat="model_checking", ref="5 (C04), 4.4, 4.5",
         text="CooBuffer.tla (a line-by-line state machine of coo_utils.py) is model-checked exhaustively for small "
